@@ -503,3 +503,88 @@ Proof.
 Qed.
 
 End Sim.
+
+(* ------------------------------------------------------------------ leaving a statement list in which local
+   functions were defined: back to the world, the callable functions and the scope before it *)
+Section Leave.
+Variable pv : N.
+Variable sv : N.
+Variable bound : N.
+Variable u : counts.
+
+Lemma rel_shrink_w fl W fl' W' sc sc' e e' st0 E0 stL0 st E stL :
+  rel pv sv bound u fl W sc e st0 E0 stL0 -> rel pv sv bound u fl' W' sc' e' st E stL ->
+  wsub W W' -> incl (fnames fl) (fnames fl') -> incl sc sc' -> sext pv fl sc e e' ->
+  rel pv sv bound u fl W sc e st E stL.
+Proof.
+  intros H0 [Hv Hb Hi Hp Hpb HpE HpG Hwf Ht Hl HW] (HwS & HwL & HwCS & HwCL & Hwf') Hfn Hincl Hs.
+  pose proof H0 as [Hv0 Hb0 Hi0 Hp0 _ _ _ _ _ _ HW0].
+  constructor.
+  - intros w Hw. destruct (Hv w (Hincl w Hw)) as (cc & x & p & H1 & H2 & H3 & H4).
+    exists cc, x, p. repeat split; auto. rewrite <- (Hs w (or_introl Hw)). exact H1.
+  - exact Hb0.
+  - exact Hi0.
+  - destruct Hp as (cp & Hlkp & Hnthp & Hdist). exists cp. repeat split.
+    + rewrite <- (Hs pv (or_intror (or_introl eq_refl))). exact Hlkp.
+    + exact Hnthp.
+    + intros w Hw. rewrite <- (Hs w (or_introl Hw)). apply Hdist. apply Hincl. exact Hw.
+  - exact Hpb.
+  - exact HpE.
+  - exact HpG.
+  - exact Hwf.
+  - exact Ht.
+  - exact Hl.
+  - destruct HW0 as [H1 H2 HCS HCL Hav H3 H4 H5 H6 H7 H8 H9 H10 H11 H12 H13]. constructor.
+    + intros c x Hc. apply (wi_IS _ _ _ _ _ _ _ _ _ _ _ HW). apply HwS. exact Hc.
+    + intros p lv Hq. apply (wi_IL _ _ _ _ _ _ _ _ _ _ _ HW). apply HwL. exact Hq.
+    + intros ci cl Hc. apply (wi_CS _ _ _ _ _ _ _ _ _ _ _ HW). apply HwCS. exact Hc.
+    + intros fid c Hc. apply (wi_CL _ _ _ _ _ _ _ _ _ _ _ HW). apply HwCL. exact Hc.
+    + exact Hav.
+    + intros d Hd. apply (wi_clos _ _ _ _ _ _ _ _ _ _ _ HW d). apply Hwf'. exact Hd.
+    + exact H4.
+    + exact H5.
+    + exact H6.
+    + exact H7.
+    + exact H8.
+    + exact H9.
+    + intros w p lv Hw Hq Hpr. apply (wi_lprot _ _ _ _ _ _ _ _ _ _ _ HW w p lv (Hincl w Hw) Hq). apply HwL. exact Hpr.
+    + exact H11.
+    + intros d Hd Hvis. apply (wi_visL _ _ _ _ _ _ _ _ _ _ _ HW d (Hwf' d Hd) (Hfn _ Hvis)).
+    + exact H13.
+Qed.
+
+(* ... and to the Lua environment before it *)
+Lemma rel_leave fl W fl' W' sc sc' e e' st0 st E E' stL0 stL :
+  rel pv sv bound u fl W sc e st0 E stL0 -> rel pv sv bound u fl' W' sc' e' st E' stL ->
+  wsub W W' -> incl (fnames fl) (fnames fl') -> incl sc sc' -> sext pv fl sc e e' -> keep sc E E' ->
+  (s_ncell stL0 <= s_ncell stL)%positive ->
+  rel pv sv bound u fl W sc e st E stL.
+Proof.
+  intros H0 H1 Hw Hfn Hi Hs Hk Hn.
+  eapply (rel_restrict pv sv bound u fl W sc e st0 e st E E' stL0 stL); [exact H0 | | exact Hk | exact Hn].
+  eapply rel_shrink_w; eassumption.
+Qed.
+
+(* an exit after a prefix that ran normally and defined local functions; the ranges of both parts lie in [lo, hi) *)
+Lemma exit_pre_w {A} fl W fl1 W1 ctx sc sc1 e e1 st a b a2 b2 lo hi E stL b1 E1 stL1 bl2 (r : SyltSem.res A) st' :
+  ExecS E b1 stL (ROk (E1, SigNormal) stL1) -> wframe bound a b E stL E1 stL1 -> keep sc E E1 ->
+  rel pv sv bound u fl W sc e st E stL -> wsub W W1 -> incl (fnames fl) (fnames fl1) -> sext pv fl sc e e1 -> incl sc sc1 ->
+  exit_post pv sv bound u fl1 W1 ctx sc1 e1 a2 b2 E1 stL1 bl2 r st' -> lo <= a -> b <= hi -> lo <= a2 -> b2 <= hi ->
+  exit_post pv sv bound u fl W ctx sc e lo hi E stL (b1 ++ bl2) r st'.
+Proof.
+  intros Hx1 Hf1 Hk1 Hrel Hw Hfn Hse Hinc (rl & Hx2 & Hok) Hla Hbh Hla2 Hbh2.
+  exists rl. split; [eapply ExecS_app; eassumption|].
+  assert (Hback : forall stL', rel pv sv bound u fl1 W1 sc1 e1 st' E1 stL' -> xkeep bound a2 b2 E1 stL1 stL' ->
+                    rel pv sv bound u fl W sc e st' E stL' /\ xkeep bound lo hi E stL stL').
+  { intros stL' Hr [Hnc Hc]. pose proof (wr_ncell _ _ _ _ _ _ _ Hf1) as Hn1. split.
+    - eapply (rel_leave fl W fl1 W1 sc sc1 e e1 st st' E E1 stL stL'); try eassumption. lia.
+    - split; [lia|].
+      intros t p Hbt Hr' Hp. rewrite (Hc t p Hbt); [| lia | apply (wr_incl _ _ _ _ _ _ _ Hf1); assumption].
+      apply (wr_cells _ _ _ _ _ _ _ Hf1 t p Hbt); [lia | exact Hp]. }
+  destruct r as [x|o|[| |v]]; cbn [exit_ok] in *; try contradiction; try exact Hok.
+  - destruct Hok as (E' & stL' & -> & Hr & Hk). exists E', stL'. split; [reflexivity | apply Hback; assumption].
+  - destruct Hok as (E' & stL' & -> & Hr & Hk). exists E', stL'. split; [reflexivity | apply Hback; assumption].
+  - destruct Hok as (E' & stL' & lv & -> & Hv & Hr & Hk). exists E', stL', lv. split; [reflexivity | split; [exact Hv | apply Hback; assumption]].
+Qed.
+
+End Leave.
